@@ -297,6 +297,11 @@ func (fv *FV) loadCell(e *Env, comp string, t types.Type, sortHint string, idx .
 			Cap: fv.loadComp(e, comp+"#cap", sInt, idx...)}
 		if fv.spec == nil {
 			fv.assume(e, and(le(intLit(0), v.Off), le(intLit(0), v.Len), le(v.Len, v.Cap), le(v.Cap, Term{"9223372036854775807", sInt})))
+			al := e.alloc
+			if _, changed := e.heap[comp+"#arr"]; !changed && e.epoch == 0 && fv.entry != nil {
+				al = fv.entry.alloc
+			}
+			fv.assume(e, or(eq(v.T, tNull), sel(al, fv.rootOf(v.T))))
 		}
 		return v
 	}
@@ -1101,6 +1106,11 @@ func (fv *FV) arrayAsSlice(e *Env, x ast.Expr, at *types.Array) Value {
 	}
 	if v.T.Sort != arrSort(sInt, es) {
 		return fv.freshValue(types.NewSlice(at.Elem()), "arrslice")
+	}
+	if fv.spec != nil {
+		// contract expressions are pure: a view carrying its contents directly
+		ln := intLit(at.Len())
+		return Value{K: kSlice, T: tNull, Off: intLit(0), Len: ln, Cap: ln, Inner: v.T, Type: types.NewSlice(at.Elem())}
 	}
 	r := fv.allocRef(e, "arrview")
 	comp := "E$" + sanitize(elemKey(at.Elem()))
